@@ -102,6 +102,7 @@ KIND = {
     "int": r"\d+",
     "arith": r"\+|-",
     "cast": r"(?: as u64)?",
+    "ident": r"[A-Za-z_][A-Za-z0-9_]*",
 }
 
 
@@ -371,42 +372,150 @@ for (nm, sig, vec, fld) in builders:
         die(what + ": the table is no longer built from (entry.memory_range(), index) over the stored vector")
     sites.append(("g_build_indexed", what))
 
-LOOKUPS = [
-    ("MinidumpModuleList::module_at_address", r"pub fn module_at_address\(&self, address: u64\) -> Option<&MinidumpModule> \{",
-     "self.modules_by_addr .get(address) .map(|&index| &self.modules[index])"),
-    ("MinidumpMemoryListBase::memory_at_address", r"pub fn memory_at_address\(\s*&self,\s*address: u64,\s*\) -> Option<&MinidumpMemoryBase<'mdmp, Descriptor>> \{",
-     "self.regions_by_addr .get(address) .and_then(|&index| self.regions.get(index))"),
-    ("MinidumpMemoryInfoList::memory_info_at_address", r"pub fn memory_info_at_address\(&self, address: u64\) -> Option<&MinidumpMemoryInfo<'mdmp>> \{",
-     "self.regions_by_addr .get(address) .map(|&index| &self.regions[index])"),
-    ("MinidumpLinuxMaps::memory_info_at_address", r"pub fn memory_info_at_address\(&self, address: u64\) -> Option<&MinidumpLinuxMapInfo<'mdmp>> \{",
-     "self.regions_by_addr .get(address) .map(|&index| &self.regions[index])"),
-    ("MinidumpModuleList::by_addr", r"pub fn by_addr\(&self\) -> impl DoubleEndedIterator<Item = &MinidumpModule> \{",
-     "self.modules_by_addr .ranges_values() .map(move |&(_, index)| &self.modules[index])"),
-    ("MinidumpMemoryListBase::by_addr", r"pub fn by_addr<'slf>\(\s*&'slf self,\s*\) -> impl Iterator<Item = &'slf MinidumpMemoryBase<'mdmp, Descriptor>> \{",
-     "self.regions_by_addr .ranges_values() .map(move |&(_, index)| &self.regions[index])"),
-    ("MinidumpMemoryInfoList::by_addr", r"pub fn by_addr<'slf>\(&'slf self\) -> impl Iterator<Item = &'slf MinidumpMemoryInfo<'mdmp>> \{",
-     "self.regions_by_addr .ranges_values() .map(move |&(_, index)| &self.regions[index])"),
-    ("MinidumpLinuxMaps::by_addr", r"pub fn by_addr<'slf>\(&'slf self\) -> impl Iterator<Item = &'slf MinidumpLinuxMapInfo<'mdmp>> \{",
-     "self.regions_by_addr .ranges_values() .map(move |&(_, index)| &self.regions[index])"),
-    ("UnifiedMemoryList::memory_at_address", r"pub fn memory_at_address<'slf>\(&'slf self, address: u64\) -> Option<UnifiedMemory<'slf, 'mdmp>> \{",
-     "match self { UnifiedMemoryList::Memory(this) => { this.memory_at_address(address).map(UnifiedMemory::Memory) } "
-     "UnifiedMemoryList::Memory64(this) => { this.memory_at_address(address).map(UnifiedMemory::Memory64) } }"),
-    ("UnifiedMemoryList::by_addr", r"pub fn by_addr<'slf>\(&'slf self\) -> impl Iterator<Item = UnifiedMemory<'slf, 'mdmp>> \{",
-     "let iter1 = if let UnifiedMemoryList::Memory(this) = self { Some(this.by_addr().map(UnifiedMemory::Memory)) } else { None }; "
-     "let iter2 = if let UnifiedMemoryList::Memory64(this) = self { Some(this.by_addr().map(UnifiedMemory::Memory64)) } else { None }; "
-     "iter1 .into_iter() .flatten() .chain(iter2.into_iter().flatten())"),
-    ("UnifiedMemoryInfoList::memory_info_at_address", r"pub fn memory_info_at_address\(&self, address: u64\) -> Option<UnifiedMemoryInfo> \{",
-     "match self { Self::Info(info) => info .memory_info_at_address(address) .map(UnifiedMemoryInfo::Info), "
-     "Self::Maps(maps) => maps .memory_info_at_address(address) .map(UnifiedMemoryInfo::Map), }"),
-    ("UnifiedMemoryInfoList::by_addr", r"pub fn by_addr\(&self\) -> impl Iterator<Item = UnifiedMemoryInfo> \{",
-     "let info = self .info() .into_iter() .flat_map(|info| info.by_addr().map(UnifiedMemoryInfo::Info)); "
-     "let maps = self .maps() .into_iter() .flat_map(|maps| maps.by_addr().map(UnifiedMemoryInfo::Map)); info.chain(maps)"),
+# *_at_address / by_addr of the four index-valued lists: the shape of each body selects a generated definition
+#   .get(address).map(|&index| &self.V[index])           -> g_lookup_index   (`[index]` is a panic site)
+#   .get(address).and_then(|&index| self.V.get(index))    -> g_lookup_get     (out of bounds = None)
+#   .ranges_values().map(move |&(_, index)| &self.V[index]) -> g_iter_index   (`[index]` is a panic site)
+LOOKUP_SHAPES = [
+    ("g_lookup_index", "self.<t:ident> .get(address) .map(|&index| &self.<v:ident>[index])"),
+    ("g_lookup_get", "self.<t:ident> .get(address) .and_then(|&index| self.<v:ident>.get(index))"),
+    ("g_iter_index", "self.<t:ident> .ranges_values() .map(move |&(_, index)| &self.<v:ident>[index])"),
 ]
-for (nm, sig, want) in LOOKUPS:
+LOOKUPS = [
+    ("g_MinidumpModuleList_module_at_address", "MinidumpModuleList::module_at_address", r"pub fn module_at_address\(&self, address: u64\) -> Option<&MinidumpModule> \{", "modules", ("g_lookup_index", "g_lookup_get")),
+    ("g_MinidumpMemoryListBase_memory_at_address", "MinidumpMemoryListBase::memory_at_address", r"pub fn memory_at_address\(\s*&self,\s*address: u64,\s*\) -> Option<&MinidumpMemoryBase<'mdmp, Descriptor>> \{", "regions", ("g_lookup_index", "g_lookup_get")),
+    ("g_MinidumpMemoryInfoList_memory_info_at_address", "MinidumpMemoryInfoList::memory_info_at_address", r"pub fn memory_info_at_address\(&self, address: u64\) -> Option<&MinidumpMemoryInfo<'mdmp>> \{", "regions", ("g_lookup_index", "g_lookup_get")),
+    ("g_MinidumpLinuxMaps_memory_info_at_address", "MinidumpLinuxMaps::memory_info_at_address", r"pub fn memory_info_at_address\(&self, address: u64\) -> Option<&MinidumpLinuxMapInfo<'mdmp>> \{", "regions", ("g_lookup_index", "g_lookup_get")),
+    ("g_MinidumpModuleList_by_addr", "MinidumpModuleList::by_addr", r"pub fn by_addr\(&self\) -> impl DoubleEndedIterator<Item = &MinidumpModule> \{", "modules", ("g_iter_index",)),
+    ("g_MinidumpMemoryListBase_by_addr", "MinidumpMemoryListBase::by_addr", r"pub fn by_addr<'slf>\(\s*&'slf self,\s*\) -> impl Iterator<Item = &'slf MinidumpMemoryBase<'mdmp, Descriptor>> \{", "regions", ("g_iter_index",)),
+    ("g_MinidumpMemoryInfoList_by_addr", "MinidumpMemoryInfoList::by_addr", r"pub fn by_addr<'slf>\(&'slf self\) -> impl Iterator<Item = &'slf MinidumpMemoryInfo<'mdmp>> \{", "regions", ("g_iter_index",)),
+    ("g_MinidumpLinuxMaps_by_addr", "MinidumpLinuxMaps::by_addr", r"pub fn by_addr<'slf>\(&'slf self\) -> impl Iterator<Item = &'slf MinidumpLinuxMapInfo<'mdmp>> \{", "regions", ("g_iter_index",)),
+]
+lk = ["Definition PANIC_G_INDEX : Z := 833.      (* `&self.vector[index]` out of bounds *)\n"
+      "Definition g_idx {A : Type} (v : list A) (i : Z) : outcome A :=\n"
+      "  match nth_error v (Z.to_nat i) with Some a => Ret a | None => Panic PANIC_G_INDEX end.\n"
+      "Definition g_lookup_index {A : Type} (v : list A) (tbl : list (range * Z)) (address : Z) : outcome (option A) :=\n"
+      "  match rm_get tbl address with None => Ret None | Some i => do a <- g_idx v i; Ret (Some a) end.\n"
+      "Definition g_lookup_get {A : Type} (v : list A) (tbl : list (range * Z)) (address : Z) : outcome (option A) :=\n"
+      "  match rm_get tbl address with None => Ret None | Some i => Ret (nth_error v (Z.to_nat i)) end.\n"
+      "Fixpoint g_iter_index {A : Type} (v : list A) (tbl : list (range * Z)) : outcome (list A) :=\n"
+      "  match tbl with [] => Ret [] | e :: t => do a <- g_idx v (snd e); do r <- g_iter_index v t; Ret (a :: r) end.\n"]
+for (gname, nm, sig, vec, allowed) in LOOKUPS:
     got = block_after(mdsrc, sig, nm)
-    if got != want:
+    hit = None
+    for (shape, tmpl) in LOOKUP_SHAPES:
+        parts = re.split(r"(<[a-z0-9_]+:[a-z]+>)", tmpl)
+        rx = "".join("(?P<%s>%s)" % (re.fullmatch(r"<([a-z0-9_]+):([a-z]+)>", q).group(1), KIND["ident"]) if q.startswith("<") else re.escape(q) for q in parts)
+        m = re.fullmatch(rx, got)
+        if m:
+            hit = (shape, m.groupdict())
+            break
+    if not hit or hit[0] not in allowed:
         die("%s (minidump.rs) is no longer a lookup / iteration of the by-address table followed by the index into the stored vector:\n"
-            "  expected: %s\n  source  : %s" % (nm, want, got))
+            "  source  : %s" % (nm, got))
+    if hit[1]["t"] != vec + "_by_addr" or hit[1]["v"] != vec:
+        die("%s (minidump.rs): table `%s` / vector `%s` are not the ones its builder fills (%s_by_addr / %s)" % (nm, hit[1]["t"], hit[1]["v"], vec, vec))
+    lk.append("(* %s (minidump.rs) *)\nDefinition %s {A : Type} := @%s A.\n" % (nm, gname, hit[0]))
+defs.append("".join(lk))
+sites.append(("g_<List>_<lookup>, g_<List>_by_addr", "the *_at_address / by_addr of the four index-valued lists (minidump.rs): shape -> g_lookup_index / g_lookup_get / g_iter_index"))
+
+# ============================================================================ the Unified* views (forwarding enums)
+# A wrapped list is (by-address table, number of stored entries).  The method each arm calls is translated through this
+# table; the variant <-> wrapper pairing and the order of the two halves of by_addr are read from the source.
+U_METHOD = {"memory_at_address": "g_lst_get", "memory_info_at_address": "g_lst_get", "by_addr": "g_lst_by_addr", "iter": "g_lst_iter"}
+U_LIST = {"Memory": "GUML_Memory", "Memory64": "GUML_Memory64", "Info": "GUMIL_Info", "Maps": "GUMIL_Maps"}
+U_ITEM = {"UnifiedMemory::Memory": "GUM_Memory", "UnifiedMemory::Memory64": "GUM_Memory64",
+          "UnifiedMemoryInfo::Info": "GUMI_Info", "UnifiedMemoryInfo::Map": "GUMI_Map"}
+
+
+def um(tbl, k, what):
+    if k not in tbl:
+        die("%s: `%s` is not a name the translator knows here (known: %s)" % (what, k, ", ".join(sorted(tbl))))
+    return tbl[k]
+
+
+UL1 = "UnifiedMemoryList::memory_at_address (minidump.rs)"
+u1 = match("match self { UnifiedMemoryList::<v1:ident>(this) => { this.<m1:ident>(address).map(UnifiedMemory::<w1:ident>) } "
+           "UnifiedMemoryList::<v2:ident>(this) => { this.<m2:ident>(address).map(UnifiedMemory::<w2:ident>) } }",
+           block_after(mdsrc, r"pub fn memory_at_address<'slf>\(&'slf self, address: u64\) -> Option<UnifiedMemory<'slf, 'mdmp>> \{", UL1), UL1)
+UL2 = "UnifiedMemoryList::by_addr (minidump.rs)"
+u2 = match("let iter1 = if let UnifiedMemoryList::<v1:ident>(this) = self { Some(this.<m1:ident>().map(UnifiedMemory::<w1:ident>)) } else { None }; "
+           "let iter2 = if let UnifiedMemoryList::<v2:ident>(this) = self { Some(this.<m2:ident>().map(UnifiedMemory::<w2:ident>)) } else { None }; "
+           "iter1 .into_iter() .flatten() .chain(iter2.into_iter().flatten())",
+           block_after(mdsrc, r"pub fn by_addr<'slf>\(&'slf self\) -> impl Iterator<Item = UnifiedMemory<'slf, 'mdmp>> \{", UL2), UL2)
+UI1 = "UnifiedMemoryInfoList::memory_info_at_address (minidump.rs)"
+u3 = match("match self { Self::<v1:ident>(info) => info .<m1:ident>(address) .map(UnifiedMemoryInfo::<w1:ident>), "
+           "Self::<v2:ident>(maps) => maps .<m2:ident>(address) .map(UnifiedMemoryInfo::<w2:ident>), }",
+           block_after(mdsrc, r"pub fn memory_info_at_address\(&self, address: u64\) -> Option<UnifiedMemoryInfo> \{", UI1), UI1)
+UI2 = "UnifiedMemoryInfoList::by_addr (minidump.rs)"
+u4 = match("let info = self .<a1:ident>() .into_iter() .flat_map(|info| info.<m1:ident>().map(UnifiedMemoryInfo::<w1:ident>)); "
+           "let maps = self .<a2:ident>() .into_iter() .flat_map(|maps| maps.<m2:ident>().map(UnifiedMemoryInfo::<w2:ident>)); info.chain(maps)",
+           block_after(mdsrc, r"pub fn by_addr\(&self\) -> impl Iterator<Item = UnifiedMemoryInfo> \{", UI2), UI2)
+# the accessors by_addr goes through: which variant each one exposes
+ACC = {}
+for acc, ty in (("maps", "MinidumpLinuxMaps"), ("info", "MinidumpMemoryInfoList")):
+    what = "UnifiedMemoryInfoList::%s (minidump.rs)" % acc
+    h = match("match &self { Self::<v1:ident>(<b1:ident>) => <r1:ident>, Self::<v2:ident>(<b2:ident>) => <r2:ident>, }",
+              re.sub(r"Some\((\w+)\)", r"Some_\1", block_after(mdsrc, r"pub fn %s\(&self\) -> Option<&%s<'a>> \{" % (acc, ty), what)), what)
+    some = [h["v%d" % i] for i in (1, 2) if h["r%d" % i] == "Some_" + h["b%d" % i]]
+    none = [h["v%d" % i] for i in (1, 2) if h["r%d" % i] == "None"]
+    if len(some) != 1 or len(none) != 1:
+        die(what + ": not `Some(inner)` for one variant and `None` for the other")
+    ACC[acc] = some[0]
+UN = "UnifiedMemoryInfoList::new (minidump.rs)"
+un = match("match (info, maps) { (Some(info), Some(_maps)) => { warn!(\"UnifiedMemoryInfoList got both kinds of info! (using InfoList)\"); "
+           "Some(Self::<b:ident>(<bx:ident>)) } (Some(info), None) => Some(Self::<i:ident>(<ix:ident>)), "
+           "(None, Some(maps)) => Some(Self::<m:ident>(<mx:ident>)), (None, None) => None, }",
+           block_after(mdsrc, r"pub fn new\(\s*info: Option<MinidumpMemoryInfoList<'a>>,\s*maps: Option<MinidumpLinuxMaps<'a>>,\s*\) -> Option<Self> \{", UN), UN)
+for k in ("bx", "ix", "mx"):
+    if un[k] not in ("info", "maps"):
+        die(UN + ": unknown binding " + un[k])
+if not re.search(r"pub enum UnifiedMemoryList<'a> \{\s*Memory\(MinidumpMemoryList<'a>\),\s*Memory64\(MinidumpMemory64List<'a>\),\s*\}", strip_comments(mdsrc)):
+    die("UnifiedMemoryList is no longer { Memory(MinidumpMemoryList), Memory64(MinidumpMemory64List) }")
+if not re.search(r"pub enum UnifiedMemoryInfoList<'a> \{\s*Maps\(MinidumpLinuxMaps<'a>\),\s*Info\(MinidumpMemoryInfoList<'a>\),\s*\}", strip_comments(mdsrc)):
+    die("UnifiedMemoryInfoList is no longer { Maps(MinidumpLinuxMaps), Info(MinidumpMemoryInfoList) }")
+
+
+def arm(lst, item, meth, arg, what):
+    return "%s this => %s %s (%s this%s)" % (um(U_LIST, lst, what), "option_map" if arg else "map",
+                                           um(U_ITEM, item, what), um(U_METHOD, meth, what), arg)
+
+
+def half(lst, item, meth, what):
+    return "(match l with %s this => map %s (%s this) | _ => [] end)" % (um(U_LIST, lst, what), um(U_ITEM, item, what), um(U_METHOD, meth, what))
+
+
+defs.append(
+    "(* the Unified* views: a wrapped list is (by-address table, number of stored entries); items carry the index *)\n"
+    "Definition g_lst : Type := (list (range * Z) * Z)%%type.\n"
+    "Definition g_lst_get (l : g_lst) (x : Z) : option Z := rm_get (fst l) x.         (* *_at_address of the wrapped list *)\n"
+    "Definition g_lst_by_addr (l : g_lst) : list Z := map snd (fst l).                 (* by_addr of the wrapped list *)\n"
+    "Definition g_lst_iter (l : g_lst) : list Z := map Z.of_nat (seq 0 (Z.to_nat (snd l))).   (* iter: stored order *)\n"
+    "Inductive g_uml := GUML_Memory (t : g_lst) | GUML_Memory64 (t : g_lst).\n"
+    "Inductive g_um := GUM_Memory (i : Z) | GUM_Memory64 (i : Z).\n"
+    "Inductive g_umil := GUMIL_Maps (t : g_lst) | GUMIL_Info (t : g_lst).\n"
+    "Inductive g_umi := GUMI_Info (i : Z) | GUMI_Map (i : Z).\n"
+    "(* %s *)\n"
+    "Definition g_uml_memory_at_address (l : g_uml) (address : Z) : option g_um :=\n"
+    "  match l with\n  | %s\n  | %s\n  end.\n"
+    "(* %s *)\n"
+    "Definition g_uml_by_addr (l : g_uml) : list g_um :=\n  %s ++\n  %s.\n"
+    "(* %s *)\n"
+    "Definition g_umil_memory_info_at_address (l : g_umil) (address : Z) : option g_umi :=\n"
+    "  match l with\n  | %s\n  | %s\n  end.\n"
+    "(* %s, through the accessors %s() = the %s variant, %s() = the %s variant *)\n"
+    "Definition g_umil_by_addr (l : g_umil) : list g_umi :=\n  %s ++\n  %s.\n"
+    "(* %s *)\n"
+    "Definition g_umil_new (info maps : option g_lst) : option g_umil :=\n"
+    "  match info, maps with\n  | Some info, Some maps => Some (%s %s)\n  | Some info, None => Some (%s %s)\n"
+    "  | None, Some maps => Some (%s %s)\n  | None, None => None\n  end.\n"
+    % (UL1, arm(u1["v1"], "UnifiedMemory::" + u1["w1"], u1["m1"], " address", UL1), arm(u1["v2"], "UnifiedMemory::" + u1["w2"], u1["m2"], " address", UL1),
+       UL2, half(u2["v1"], "UnifiedMemory::" + u2["w1"], u2["m1"], UL2), half(u2["v2"], "UnifiedMemory::" + u2["w2"], u2["m2"], UL2),
+       UI1, arm(u3["v1"], "UnifiedMemoryInfo::" + u3["w1"], u3["m1"], " address", UI1), arm(u3["v2"], "UnifiedMemoryInfo::" + u3["w2"], u3["m2"], " address", UI1),
+       UI2, u4["a1"], um(ACC, u4["a1"], UI2), u4["a2"], um(ACC, u4["a2"], UI2),
+       half(um(ACC, u4["a1"], UI2), "UnifiedMemoryInfo::" + u4["w1"], u4["m1"], UI2), half(um(ACC, u4["a2"], UI2), "UnifiedMemoryInfo::" + u4["w2"], u4["m2"], UI2),
+       UN, um(U_LIST, un["b"], UN), un["bx"], um(U_LIST, un["i"], UN), un["ix"], um(U_LIST, un["m"], UN), un["mx"]))
+sites.append(("g_uml_*, g_umil_*", "UnifiedMemoryList / UnifiedMemoryInfoList ::{memory(_info)_at_address, by_addr, new, info, maps} (minidump.rs)"))
 
 # MinidumpModuleList::read: the read-time filter in front of from_modules
 MR_ = "MinidumpModuleList::read (minidump.rs)"
